@@ -1,6 +1,7 @@
 CONSTANT FIXED = TRUE
 CONSTANT FIXED2 = TRUE
 CONSTANT FIXED3 = TRUE
+CONSTANT FIXED4 = TRUE
 INIT Init
 NEXT Next
 INVARIANT Refines
